@@ -26,13 +26,15 @@ Proof.
   intros m'; split; [reflexivity | lia].
 Qed.
 
-Lemma lim_step o s : lim (clk s) (fun m => step m o s).
+Lemma lim_cstep lab o s : lim (clk s) (fun m => cstep m lab o s).
 Proof.
-  intros m s' H. pose proof (step_ok _ _ _ _ H) as [Hc Hm]. split; [lia|].
+  intros m s' H. pose proof (cstep_ok _ _ _ _ _ H) as [Hc Hm]. split; [lia|].
   intros m'; split; intros Hm'.
-  - eapply step_limit_ge; eauto.
-  - exists s'. split; [eapply step_limit_lt; eauto; lia | lia].
+  - eapply cstep_limit_ge; eauto.
+  - exists s'. split; [eapply cstep_limit_lt; eauto; lia | lia].
 Qed.
+Lemma lim_step o s : lim (clk s) (fun m => step m o s).
+Proof. apply lim_cstep. Qed.
 
 Lemma lim_bind c0 F G :
   lim c0 F ->
@@ -60,6 +62,13 @@ Proof.
   - apply lim_bind; [apply lim_step|]. intros s1 _. apply IH.
 Qed.
 
+Lemma lim_csteps ops : forall s, lim (clk s) (fun m => csteps m ops s).
+Proof.
+  induction ops as [|[lab o] ops IH]; intros s; cbn [csteps].
+  - apply lim_ok.
+  - apply lim_bind; [apply lim_cstep|]. intros s1 _. apply IH.
+Qed.
+
 Lemma restore_ctx_clk c s : clk (restore_ctx c s) = clk s.
 Proof. unfold restore_ctx. destruct (saved s) as [|[v a] r]; reflexivity. Qed.
 
@@ -85,42 +94,42 @@ Proof.
   - destruct IH as [IHb [IHl [IHc IHd]]].
     assert (Hb : forall b s, lim (clk s) (fun m => EB m (S f) b s)).
     { intros b s. destruct b; cbn [exec_block].
-      + apply lim_steps.
-      + unfold stepc. apply lim_bind; [apply lim_step|]. intros s1 _.
+      + apply lim_csteps.
+      + unfold cst. apply lim_bind; [apply lim_cstep|]. intros s1 _.
         apply lim_bind; [apply IHb|]. intros s2 _.
-        apply lim_bind; [apply IHb|]. intros s3 _. apply lim_step.
-      + unfold stepc. apply lim_bind; [apply lim_step|]. intros s1 _.
+        apply lim_bind; [apply IHb|]. intros s3 _. apply lim_cstep.
+      + unfold cst. apply lim_bind; [apply lim_cstep|]. intros s1 _.
         destruct (get s 0 =? 1).
-        * apply lim_bind; [apply IHb|]. intros s2 _. apply lim_step.
+        * apply lim_bind; [apply IHb|]. intros s2 _. apply lim_cstep.
         * destruct (get s 0 =? 0); [|apply lim_err].
-          apply lim_bind; [apply IHb|]. intros s2 _. apply lim_step.
-      + unfold stepc. apply lim_bind; [apply lim_step|]. intros s1 _.
+          apply lim_bind; [apply IHb|]. intros s2 _. apply lim_cstep.
+      + unfold cst. apply lim_bind; [apply lim_cstep|]. intros s1 _.
         destruct (get s 0 =? 1).
         * apply lim_bind; [apply IHb|]. intros s2 _. apply IHl.
-        * destruct (get s 0 =? 0); [apply lim_step | apply lim_err].
+        * destruct (get s 0 =? 0); [apply lim_cstep | apply lim_err].
       + apply IHc.
       + destruct (kernel_has kernel fn_hash); [apply IHc | apply lim_err].
       + apply IHd. }
     assert (Hl : forall body s, lim (clk s) (fun m => EL m (S f) body s)).
-    { intros body s. cbn [exec_loop]. unfold stepc.
+    { intros body s. cbn [exec_loop]. unfold cst.
       destruct (get s 0 =? 1).
-      - apply lim_bind; [apply lim_step|]. intros s1 _.
+      - apply lim_bind; [apply lim_cstep|]. intros s1 _.
         apply lim_bind; [apply IHb|]. intros s2 _. apply IHl.
-      - destruct (get s 0 =? 0); [apply lim_step | apply lim_err]. }
+      - destruct (get s 0 =? 0); [apply lim_cstep | apply lim_err]. }
     assert (Hc : forall h sys s, lim (clk s) (fun m => EC m (S f) h sys s)).
-    { intros h sys s. cbn [exec_call]. unfold stepc.
+    { intros h sys s. cbn [exec_call]. unfold cst.
       change (clk s) with (clk (start_call_ctx s h sys)).
-      apply lim_bind; [apply lim_step|]. intros s1 _.
+      apply lim_bind; [apply lim_cstep|]. intros s1 _.
       apply lim_bind.
       - destruct (word_eqb h DYN_HASH); [apply IHd|].
         destruct (table_get table h); [apply IHb | apply lim_err].
       - intros s2 _. destruct (Nat.ltb 16 (depth s2)); [apply lim_err|].
-        rewrite <- (restore_ctx_clk s s2). apply lim_step. }
+        rewrite <- (restore_ctx_clk s s2). apply lim_cstep. }
     assert (Hd : forall s, lim (clk s) (fun m => ED m (S f) s)).
-    { intros s. cbn [exec_dyn]. unfold stepc.
-      apply lim_bind; [apply lim_step|]. intros s1 _.
+    { intros s. cbn [exec_dyn]. unfold cst.
+      apply lim_bind; [apply lim_cstep|]. intros s1 _.
       destruct (table_get table _); [|apply lim_err].
-      apply lim_bind; [apply IHb|]. intros s2 _. apply lim_step. }
+      apply lim_bind; [apply IHb|]. intros s2 _. apply lim_cstep. }
     exact (conj Hb (conj Hl (conj Hc Hd))).
 Qed.
 
@@ -174,17 +183,17 @@ Proof.
     inversion H; discriminate.
 Qed.
 
-Lemma safe_step m o s : safe (step m o s).
+Lemma safe_cstep m lab o s : safe (cstep m lab o s).
 Proof.
-  intros s1 H. destruct (step_err_cases _ _ _ _ _ H) as [H1|[H1 _]].
+  intros s1 H. destruct (cstep_err_cases _ _ _ _ _ _ H) as [H1|[H1 _]].
   - apply exec_op_no_oof in H1. apply H1; reflexivity.
   - discriminate.
 Qed.
 
-Lemma safe_steps m ops : forall s, safe (steps m ops s).
+Lemma safe_csteps m ops : forall s, safe (csteps m ops s).
 Proof.
-  induction ops as [|o ops IH]; intros s; cbn [steps]; [apply safe_ok|].
-  apply safe_bind; [apply safe_step|]. intros s1 _. apply IH.
+  induction ops as [|[lab o] ops IH]; intros s; cbn [csteps]; [apply safe_ok|].
+  apply safe_bind; [apply safe_cstep|]. intros s1 _. apply IH.
 Qed.
 
 Section NoOutOfFuel.
@@ -200,9 +209,9 @@ Local Notation ED := (exec_dyn m table kernel).
 Definition budget (s : state) : nat := Z.to_nat (m + 1 - clk s).
 
 (* a call or dyn node spends one unit of fuel before its first cycle, hence the factor 2 *)
-Lemma budget_step o s s1 (f : nat) :
-  step m o s = Ok s1 -> (2 * budget s < S f)%nat -> (2 * budget s1 + 1 < f)%nat.
-Proof. intros H Hb. apply step_ok in H. unfold budget in *. lia. Qed.
+Lemma budget_step lab o s s1 (f : nat) :
+  cstep m lab o s = Ok s1 -> (2 * budget s < S f)%nat -> (2 * budget s1 + 1 < f)%nat.
+Proof. intros H Hb. apply cstep_ok in H. unfold budget in *. lia. Qed.
 
 Lemma budget_mono s s' (f : nat) :
   clk s <= clk s' -> (2 * budget s + 1 < f)%nat -> (2 * budget s' + 1 < f)%nat.
@@ -233,52 +242,52 @@ Proof.
   - split; [|split; [|split]]; intros; lia.
   - destruct IH as [IHb [IHl [IHc IHd]]].
     assert (Hb : forall b s, (2 * budget s + 1 < S f)%nat -> safe (EB (S f) b s)).
-    { intros b s Hbud. destruct b; cbn [exec_block]; unfold stepc.
-      + apply safe_steps.
-      + apply safe_bind; [apply safe_step|]. intros s1 E1.
-        assert (B1 : (2 * budget s1 + 1 < f)%nat) by (apply (budget_step _ _ _ _ E1); lia).
+    { intros b s Hbud. destruct b; cbn [exec_block]; unfold cst.
+      + apply safe_csteps.
+      + apply safe_bind; [apply safe_cstep|]. intros s1 E1.
+        assert (B1 : (2 * budget s1 + 1 < f)%nat) by (apply (budget_step _ _ _ _ _ E1); lia).
         apply safe_bind; [apply IHb; exact B1|]. intros s2 E2.
         pose proof (budget_mono _ _ _ (EB_clk _ _ _ _ E2) B1) as B2.
-        apply safe_bind; [apply IHb; exact B2|]. intros s3 _. apply safe_step.
-      + apply safe_bind; [apply safe_step|]. intros s1 E1.
-        assert (B1 : (2 * budget s1 + 1 < f)%nat) by (apply (budget_step _ _ _ _ E1); lia).
+        apply safe_bind; [apply IHb; exact B2|]. intros s3 _. apply safe_cstep.
+      + apply safe_bind; [apply safe_cstep|]. intros s1 E1.
+        assert (B1 : (2 * budget s1 + 1 < f)%nat) by (apply (budget_step _ _ _ _ _ E1); lia).
         destruct (get s 0 =? 1).
-        * apply safe_bind; [apply IHb; exact B1|]. intros s2 _. apply safe_step.
+        * apply safe_bind; [apply IHb; exact B1|]. intros s2 _. apply safe_cstep.
         * destruct (get s 0 =? 0); [|apply safe_err; discriminate].
-          apply safe_bind; [apply IHb; exact B1|]. intros s2 _. apply safe_step.
-      + apply safe_bind; [apply safe_step|]. intros s1 E1.
-        assert (B1 : (2 * budget s1 + 1 < f)%nat) by (apply (budget_step _ _ _ _ E1); lia).
+          apply safe_bind; [apply IHb; exact B1|]. intros s2 _. apply safe_cstep.
+      + apply safe_bind; [apply safe_cstep|]. intros s1 E1.
+        assert (B1 : (2 * budget s1 + 1 < f)%nat) by (apply (budget_step _ _ _ _ _ E1); lia).
         destruct (get s 0 =? 1).
         * apply safe_bind; [apply IHb; exact B1|]. intros s2 E2.
           apply IHl. exact (budget_mono _ _ _ (EB_clk _ _ _ _ E2) B1).
-        * destruct (get s 0 =? 0); [apply safe_step | apply safe_err; discriminate].
+        * destruct (get s 0 =? 0); [apply safe_cstep | apply safe_err; discriminate].
       + apply IHc. unfold budget in *. lia.
       + destruct (kernel_has kernel fn_hash); [|apply safe_err; discriminate].
         apply IHc. unfold budget in *. lia.
       + apply IHd. unfold budget in *. lia. }
     assert (Hl : forall body s, (2 * budget s + 1 < S f)%nat -> safe (EL (S f) body s)).
-    { intros body s Hbud. cbn [exec_loop]. unfold stepc.
+    { intros body s Hbud. cbn [exec_loop]. unfold cst.
       destruct (get s 0 =? 1).
-      - apply safe_bind; [apply safe_step|]. intros s1 E1.
-        assert (B1 : (2 * budget s1 + 1 < f)%nat) by (apply (budget_step _ _ _ _ E1); lia).
+      - apply safe_bind; [apply safe_cstep|]. intros s1 E1.
+        assert (B1 : (2 * budget s1 + 1 < f)%nat) by (apply (budget_step _ _ _ _ _ E1); lia).
         apply safe_bind; [apply IHb; exact B1|]. intros s2 E2.
         apply IHl. exact (budget_mono _ _ _ (EB_clk _ _ _ _ E2) B1).
-      - destruct (get s 0 =? 0); [apply safe_step | apply safe_err; discriminate]. }
+      - destruct (get s 0 =? 0); [apply safe_cstep | apply safe_err; discriminate]. }
     assert (Hc : forall h sys s, (2 * budget s < S f)%nat -> safe (EC (S f) h sys s)).
-    { intros h sys s Hbud. cbn [exec_call]. unfold stepc.
-      apply safe_bind; [apply safe_step|]. intros s1 E1.
-      assert (B1 : (2 * budget s1 + 1 < f)%nat) by (apply (budget_step _ _ _ _ E1); exact Hbud).
+    { intros h sys s Hbud. cbn [exec_call]. unfold cst.
+      apply safe_bind; [apply safe_cstep|]. intros s1 E1.
+      assert (B1 : (2 * budget s1 + 1 < f)%nat) by (apply (budget_step _ _ _ _ _ E1); exact Hbud).
       apply safe_bind.
       - destruct (word_eqb h DYN_HASH); [apply IHd; lia|].
         destruct (table_get table h); [apply IHb; exact B1 | apply safe_err; discriminate].
       - intros s2 _. destruct (Nat.ltb 16 (depth s2)); [apply safe_err; discriminate|].
-        apply safe_step. }
+        apply safe_cstep. }
     assert (Hd : forall s, (2 * budget s < S f)%nat -> safe (ED (S f) s)).
-    { intros s Hbud. cbn [exec_dyn]. unfold stepc.
-      apply safe_bind; [apply safe_step|]. intros s1 E1.
-      assert (B1 : (2 * budget s1 + 1 < f)%nat) by (apply (budget_step _ _ _ _ E1); lia).
+    { intros s Hbud. cbn [exec_dyn]. unfold cst.
+      apply safe_bind; [apply safe_cstep|]. intros s1 E1.
+      assert (B1 : (2 * budget s1 + 1 < f)%nat) by (apply (budget_step _ _ _ _ _ E1); lia).
       destruct (table_get table _); [|apply safe_err; discriminate].
-      apply safe_bind; [apply IHb; exact B1|]. intros s2 _. apply safe_step. }
+      apply safe_bind; [apply IHb; exact B1|]. intros s2 _. apply safe_cstep. }
     exact (conj Hb (conj Hl (conj Hc Hd))).
 Qed.
 
